@@ -89,6 +89,14 @@ CHECKS = {
               "excluded files are blanked."),
         note="exclude-paths entries are substring matches on absolute file names (scratch paths are digits only).",
         technique="Coq proof (file filter characterisation, analysis factors through kept files) + model and metamorphic correspondence through the real binary"),
+    "C09": dict(
+        text=("Theorems (Coq, every package tree, every configuration): if no doc line of a top-level type declaration (group or spec) or function of the non-excluded files is recognised by one "
+              "of the parsers (the regexes regenerated from the source), nothing is collected - whatever trailing, local, free or field comments say; and if neither the package nor its direct "
+              "imports carry annotations the four AST checkers return nothing for every tree and suppression state. Tied to the code by the real binary on the whole Go standard library and the "
+              "repository's dependencies under two configurations (zero diagnostics, exit 0), and by generated worlds where every annotation is a near-miss or in an inert placement "
+              "(implementation and model: zero diagnostics, no annotation collected)."),
+        note="Corpora are inputs to the correspondence, not to the theorem; their doc lines are read by the real reader only. IMPL is silent trivially (no annotation => early return) and joins the theorem with the @implements model.",
+        technique="Coq proof (unrecognised lines => empty annotations => empty indices => no diagnostics) + corpus runs through the real binary + near-miss worlds"),
 }
 
 PENDING_REASON = "check under construction in this round (designed in DESIGN.md section 5); not yet claimed"
